@@ -1,7 +1,7 @@
 """C02 — Header section is well-formed and injection-proof for any supplied text."""
 import itertools
 import re
-from tools import hdrgen
+from tools import hdrgen, mboxgen
 from tools.lv import hexs, unhex
 
 LEVEL = "proof"
@@ -11,7 +11,9 @@ RULE = ("hval: header names of every length 1..76 x texts built from words of 1.
         "0..79 against the fold column and the base64 groups, runs of spaces and tabs, CR, LF, CRLF+SP, CRLF+injected field, NUL, C0 "
         "controls, DEL, ':' , '=?', quotes, up to 64 KiB; hname: every string over the 128 ASCII values up to length 2 plus structured "
         "names (control characters, spaces, colons, non-ASCII, lengths 0/1/76/77) [exhaustive to length 2]; hdrs: random sequences of "
-        "insert/remove/get with names differing in letter case. Non-trivial = the value needs encoding or folding, or contains a "
+        "insert/remove/get with names differing in letter case; typed: the nine text headers and Content-Type through their own display() "
+        "(single tokens carrying CR / LF / NUL / an injected field, encoded-word look-alikes, non-ASCII quoted parameters), compared with the "
+        "encoder model and read back; build: header counts (one Date, one From) of built messages, incl. a Sender without a From. Non-trivial = the value needs encoding or folding, or contains a "
         "control character; distinct = distinct case lines.")
 TRUSTED_BASE = ["Lean 4 kernel", "axioms: propext, Quot.sound, Classical.choice at most (see axioms per theorem)",
                 "Spec/HeaderReader.lean as the reading of RFC 5322 2.2 (field splitting, unfolding, line rules)",
@@ -46,6 +48,40 @@ def gen(tier, rng):
             else:
                 ops.append(f"g:{hexs(nmx)}")
         cases.append("hdrs\t" + ";".join(ops))
+    # the typed text headers through their own `display()` (Subject, Comments, Keywords, In-Reply-To, References, Message-ID,
+    # User-Agent, Content-ID, Content-Location): single tokens without a space that carry CR / LF / NUL / an injected field,
+    # encoded-word look-alikes, long unbreakable tokens, and random texts
+    sels = ["subject", "comments", "keywords", "in-reply-to", "references", "message-id", "user-agent", "content-id", "content-location"]
+    tokens = ["a\r\nX-Injected:1", "a\r\n\r\nbody", "a\nb", "a\rb", "a\x00b", "\r\n", "\r\n X", "<id@host>\r\nBcc:x@y.z", "plain", "x" * 100, "x" * 890,
+              "=?utf-8?q?x?=", "=?utf-8?b?aGk=?=", "a\tb", "\x7f", "é", "a:b", "<1234@local.machine.example>", "tok\x0bv", "a\x1fb"]
+    for sel in sels:
+        for t in tokens:
+            cases.append(f"typed\ttext\t{hexs(t)}\t{sel}")
+    for _ in range({"quick": 400, "search": 1500, "thorough": 8000}[tier]):
+        t = hdrgen.text(rng, 6)
+        r = rng.random()
+        if r < 0.4:
+            t = t.replace(" ", "").replace("\t", "")          # one token
+        if r < 0.25 or r > 0.9:
+            k = rng.randint(0, len(t))
+            t = t[:k] + rng.choice(["\r\n", "\n", "\r", "\x00", "\r\nX:1", "\r\n\r\n"]) + t[k:]
+        if t:
+            cases.append(f"typed\ttext\t{hexs(t)}\t{rng.choice(sels)}")
+    # Content-Type through its own `display()`: short and long values, non-ASCII and blanks inside quoted parameters
+    for ct in ["text/plain", "text/plain; charset=utf-8", "application/pdf; name=\"résumé.pdf\"", "application/pdf; name=\"é\"", "image/png; name=\"日本語.png\"",
+               "application/octet-stream; name=\"" + "é" * 40 + "\"", "application/octet-stream; name=\"" + "x" * 90 + "\"", "multipart/mixed; boundary=\"a b\"",
+               "text/plain; a=\"b c\"; d=\"é f\"", "a/b; c=\"\\\"\"", "text/plain; charset=utf-8; format=flowed; delsp=yes; x-long=" + "y" * 60]:
+        cases.append(f"typed\tctype\t{hexs(ct)}\t-")
+    for _ in range({"quick": 150, "search": 500, "thorough": 3000}[tier]):
+        val = "".join(rng.choice("ab .éü日-_") for _ in range(rng.randint(1, 70)))
+        cases.append(f"typed\tctype\t{hexs(rng.choice(['text/plain', 'application/x-' + 'z' * rng.randint(1, 40)]) + '; name=' + chr(34) + val + chr(34))}\t-")
+    # a built message: exactly one Date and one From, whatever the calls (incl. a Sender without any From)
+    cases += ["build\t" + ",".join(p) for p in (
+        [f"S:-:{hexs('s@x.y')}", f"T:-:{hexs('t@x.y')}"], [f"S:-:{hexs('s@x.y')}"], [f"T:-:{hexs('t@x.y')}"],
+        [f"F:-:{hexs('f@x.y')}", f"S:-:{hexs('s@x.y')}", f"T:-:{hexs('t@x.y')}"],
+        [f"F:-:{hexs('f@x.y')}", f"F:-:{hexs('g@x.y')}", f"T:-:{hexs('t@x.y')}"],
+        [f"F:-:{hexs('f@x.y')}", f"F:-:{hexs('g@x.y')}", f"S:-:{hexs('s@x.y')}", f"T:-:{hexs('t@x.y')}"])]
+    cases += mboxgen.build_cases(rng, {"quick": 300, "search": 1000, "thorough": 5000}[tier])
     return cases
 
 
@@ -75,6 +111,11 @@ def distribution(cases):
     return d
 
 
+def _hv(f):
+    """cases whose output is one `HeaderValue::new` field: hval / hvalrt, and a typed text header (its display() is HeaderValue::new)"""
+    return f[0] in ("hval", "hvalrt") or (f[0] == "typed" and f[1] == "text")
+
+
 def _cdisp_escaped(f, o, v):
     """Content-Disposition: a name with double quotes / backslashes; a line sized before the quoted-pair escaping exceeds 78 after it"""
     if f[0] != "typed" or f[1] != "cdisp" or "line-over-78-that-could-have-been-folded" not in v:
@@ -86,7 +127,7 @@ def _cdisp_escaped(f, o, v):
 def _tab_not_fold_point(f, o, v):
     """an over-78 line whose token contains HTAB but no SP: lettre (email-encoding's folding
     writer) only folds at SP"""
-    if f[0] not in ("hval", "hvalrt") or "line-over-78-that-could-have-been-folded" not in v:
+    if not _hv(f) or "line-over-78-that-could-have-been-folded" not in v:
         return False
     try:
         block = unhex(o[4])
@@ -108,7 +149,7 @@ def _tab_not_fold_point(f, o, v):
 def _trailing_ws_past_78(f, o, v):
     """every over-78 line is within 78 once its trailing white space is removed: the value ends
     with spaces that the writer appends to a full last line"""
-    if f[0] not in ("hval", "hvalrt") or "line-over-78-that-could-have-been-folded" not in v:
+    if not _hv(f) or "line-over-78-that-could-have-been-folded" not in v:
         return False
     try:
         block = unhex(o[4])
@@ -129,7 +170,7 @@ def _block(f, o):
 def _spaces_before_encoded_word(f, o, v):
     """rfc2047::encode (email-encoding) computes the room left on the line from line_len(), without the
     spaces still pending: an encoded-word written after a run of k >= 2 spaces overshoots by up to k"""
-    if f[0] not in ("hval", "hvalrt") or "line-over-78-that-could-have-been-folded" not in v:
+    if not _hv(f) or "line-over-78-that-could-have-been-folded" not in v:
         return False
     block = _block(f, o)
     if block is None:
@@ -151,7 +192,7 @@ def _spaces_before_encoded_word(f, o, v):
 
 def _space_run_over_998(f, o, v):
     """a run of 900+ consecutive spaces is written on one line"""
-    if f[0] not in ("hval", "hvalrt") or "over-998" not in v:
+    if not _hv(f) or "over-998" not in v:
         return False
     block = _block(f, o)
     if block is None:
